@@ -238,9 +238,13 @@ func checkC01(c *Check) {
 		ok := returnsWhere(wpg, func(s *PState) bool { return retNilErr(s, 1) })
 		c.mustPass(wpg, "O-C01.5", "wrapper: raw signature present", "the wrapper's Verify returns content", ok, A("-Empty(recv.Raw)"))
 		c.mustPass(wpg, "O-C01.5", "wrapper: inner Verify succeeded", "the wrapper's Verify returns content", ok, A("+IsNil((ncg/signature.Envelope).Verify(recv.Envelope)#1)"))
+		contentNotModified(c, "O-C01.5", wpg, "(ncg/signature.Envelope).Verify(recv.Envelope)#0", "Verify")
 	}
 	// faithful decoding of the protected header: exactly the specification
 	// headers are consumed as such, every other signed header surfaces as an
 	// extended attribute with its own value (O-C13.1-3)
 	c.floor("protected-header decoding rules (shared with C13)", 6, shareRules(c, checkC13, []string{"O-C13.1", "O-C13.2", "O-C13.3"}, "O-C01.6", "decoding: "))
+	// the protected header is decoded once by name-exact rules: a member that differs from a
+	// specification name only by case must not override the reported attribute (O-C02.5)
+	c.floor("header-name rules (shared with C02)", 3, shareRules(c, checkC02, []string{"O-C02.5"}, "O-C01.6", "header names: "))
 }
